@@ -70,6 +70,7 @@ type Stats struct {
 	FiredSeqs    []int // sequence numbers of the operations that were failed
 	MaxWriters   int   // max simultaneously open write handles on one file
 	BytesWritten int64
+	SilentDamage int // files damaged behind the writer's back (SetDamageOnClose)
 }
 
 // Disk is one incarnation's file system.
@@ -88,6 +89,9 @@ type Disk struct {
 	lastFaultKind int
 	lastFaultPath string
 	Env           map[string]string
+	// damageSuffix/damageMode: see SetDamageOnClose
+	damageSuffix string
+	damageMode   int
 	// OnOp, if set, is called (with the disk lock held) before each mutating op
 	// with its sequence number and kind; used by harnesses to map ops to phases.
 	OnOp func(seq int, kind int, p string)
@@ -866,8 +870,31 @@ func (h *Handle) Close() error {
 	if h.write {
 		h.n.writers--
 		h.d.logOp(LogOp{Kind: OpClose, Ino: h.n.ino})
+		if h.d.damageSuffix != "" && strings.HasSuffix(h.name, h.d.damageSuffix) && len(h.n.data) > 80 {
+			// the medium loses or garbles what was written, and nobody is told (bad sector, lying disk): every
+			// write, the fsync and this close have all reported success
+			switch h.d.damageMode {
+			case 0:
+				h.n.data = h.n.data[:80] // everything after the first bytes is gone
+			case 1:
+				h.n.data[len(h.n.data)/2] ^= 0x5a
+			default:
+				for i := len(h.n.data) / 2; i < len(h.n.data) && i < len(h.n.data)/2+512; i++ {
+					h.n.data[i] = 0
+				}
+			}
+			h.d.st.SilentDamage++
+		}
 	}
 	return nil
+}
+
+// SetDamageOnClose makes the disk silently damage every file whose name ends in suffix at the moment its writer
+// closes it (mode 0: cut after 80 bytes, 1: one flipped byte in the middle, 2: a zeroed 512-byte run). "" switches it off.
+func (d *Disk) SetDamageOnClose(suffix string, mode int) {
+	d.mu.Lock()
+	defer d.mu.Unlock()
+	d.damageSuffix, d.damageMode = suffix, mode
 }
 
 func (h *Handle) Stat() (fs.FileInfo, error) {
